@@ -79,6 +79,10 @@ static bool path_op(long c, vh::Tok& t)
 // A probe is what the real kernel (stat / lstat / fstat) says a path text or descriptor denotes,
 // as the name it has in the snapshot ("-" = nothing):  s/e = taken before the operation, d = after.
 // Byte strings longer than 128 bytes are shown as #<length>.<crc32>.
+// Probes of injected outcomes:  x=<n> after copy = how many outcomes of `inject` the library's sendfile calls
+// consumed (0: the library never got an injected answer);  ff=<0|1> fw=<call> after dunlink / purge = whether
+// the fault armed by `fault n` made a call of the library fail, and which call.  The property oracle asks for
+// the fault-free outcome when nothing was consumed and for the order-independent part of the text otherwise.
 
 static char base_dir[4096];     // absolute path of fs-<pid>
 static char home_dir[4096];     // where the harness was started
@@ -220,7 +224,7 @@ static void take_snapshot(bool print)
 }
 
 // ---- probes ---------------------------------------------------------------------------------------
-static char probes[6][8300]; static int probe_n;
+static char probes[8][8300]; static int probe_n;
 static struct { char key[4]; char path[8192]; bool follow; } later[4]; static int later_n;
 
 static void probe_store(const char* key, const char* full)
@@ -258,6 +262,8 @@ static void probe_after(const char* key, const String& path, bool follow)
   snprintf(later[later_n].path, sizeof(later[0].path), "%s", (const char*)path);
   later[later_n].follow = follow; ++later_n;
 }
+// a probe that is not a name of the snapshot: which injected outcomes / faults the library's calls consumed
+static void probe_raw(const char* key, const char* text) { snprintf(probes[probe_n++], sizeof(probes[0]), "%s=%s", key, text); }
 static void probe_fd(const char* key, int fd)
 {
   struct stat sb;
@@ -319,7 +325,14 @@ extern "C" ssize_t sendfile64(int out, int in, off64_t* off, size_t count) { ret
 // so that what has been removed before the failing call is the same on both sides.
 static bool lib_active = false;     // inside the library call of a dunlink / purge
 static long fault_at = -1, fault_cnt = 0;
-static bool fault_tick() { if(!lib_active || fault_at < 0) return false; return fault_cnt++ == fault_at; }
+static const char* fault_fired = 0;  // the call the armed fault made fail (0: the fault has not been consumed)
+static bool fault_tick(const char* call)
+{
+  if(!lib_active || fault_at < 0) return false;
+  if(fault_cnt++ != fault_at) return false;
+  fault_fired = call;
+  return true;
+}
 
 struct Shim { DIR* dp; struct dirent* ents; size_t n, i; };
 static Shim shims[64]; static int shim_n;
@@ -335,7 +348,7 @@ static struct dirent* readdir_hook(const char* name, DIR* dp)
 {
   readdir_fn real = (readdir_fn)dlsym(RTLD_NEXT, name);
   if(!lib_active || fault_at < 0) return real(dp);
-  if(fault_tick()) { errno = EIO; return 0; }
+  if(fault_tick("readdir")) { errno = EIO; return 0; }
   Shim* s = 0;
   for(int i = 0; i < shim_n; ++i) if(shims[i].dp == dp) s = &shims[i];
   if(!s) {
@@ -363,19 +376,19 @@ extern "C" int closedir(DIR* dp)
 extern "C" DIR* opendir(const char* path)
 {
   typedef DIR* (*fn)(const char*); fn real = (fn)dlsym(RTLD_NEXT, "opendir");
-  if(fault_tick()) { errno = EIO; return 0; }
+  if(fault_tick("opendir")) { errno = EIO; return 0; }
   return real(path);
 }
 extern "C" int rmdir(const char* path)
 {
   typedef int (*fn)(const char*); fn real = (fn)dlsym(RTLD_NEXT, "rmdir");
-  if(fault_tick()) { errno = EIO; return -1; }
+  if(fault_tick("rmdir")) { errno = EIO; return -1; }
   return real(path);
 }
 extern "C" int unlink(const char* path)
 {
   typedef int (*fn)(const char*); fn real = (fn)dlsym(RTLD_NEXT, "unlink");
-  if(fault_tick()) { errno = EIO; return -1; }
+  if(fault_tick("unlink")) { errno = EIO; return -1; }
   return real(path);
 }
 
@@ -409,7 +422,7 @@ static void fs_end()
   if(!fs_active) return;
   for(int h = 0; h < 8; ++h) { delete hnd[h]; hnd[h] = 0; }
   for(int k = 0; k < 4; ++k) { delete dirs[k]; dirs[k] = 0; }
-  lib_active = false; fault_at = -1; fault_cnt = 0; shims_clear();
+  lib_active = false; fault_at = -1; fault_cnt = 0; fault_fired = 0; shims_clear();
   if(fs_chrooted) {
     if(fchdir(old_root) != 0 || chroot(".") != 0) _exit(3);
     close(old_root); old_root = -1; fs_chrooted = false;
@@ -555,7 +568,7 @@ static bool fs_op(long c, vh::Tok& t)
     if(dirs[k]) dirs[k]->close();
     printf("%ld -", c);
   } else if(!strcmp(o, "fault")) {
-    fault_at = atol(t.v[1]); fault_cnt = 0;
+    fault_at = atol(t.v[1]); fault_cnt = 0; fault_fired = 0;
     printf("%ld -", c);
   } else if(!strcmp(o, "funlink")) {
     String p = arg(t.v[1]);
@@ -573,6 +586,8 @@ static bool fs_op(long c, vh::Tok& t)
     String a = arg(t.v[1]), b = arg(t.v[2]);
     probe_now("s", a, true); probe_now("e", b, true); probe_now("l", b, false); probe_after("d", b, true);
     printf("%ld %d", c, File::copy(a, b, atoi(t.v[3]) != 0) ? 1 : 0);
+    char used[32]; snprintf(used, sizeof(used), "%d", inj_i);      // x = how many injected outcomes the library's sendfile calls consumed
+    probe_raw("x", used);
     inj_n = inj_i = 0;
   } else if(!strcmp(o, "exists")) {
     String p = arg(t.v[1]);
@@ -586,7 +601,9 @@ static bool fs_op(long c, vh::Tok& t)
     else {
       lib_active = true;
       r = !strcmp(o, "dunlink") ? Directory::unlink(p, atoi(t.v[2]) != 0) : Directory::purge(p, atoi(t.v[2]) != 0);
-      lib_active = false; fault_at = -1; fault_cnt = 0; shims_clear();
+      // ff = was the armed fault consumed (did a call of the library fail), fw = which call it was
+      probe_raw("ff", fault_fired ? "1" : "0"); probe_raw("fw", fault_fired ? fault_fired : "-");
+      lib_active = false; fault_at = -1; fault_cnt = 0; fault_fired = 0; shims_clear();
     }
     struct stat sb;                                   // the harness's own look, not the library's
     bool there = stat(p, &sb) == 0 && S_ISDIR(sb.st_mode);
